@@ -493,6 +493,12 @@ fn run(ctx: &RunCtx) {
             Ok(None) => CaseResult::Discard("darklua rejects the project"),
             Ok(Some((files_with_markers, surviving))) => {
                 st.class_n("surviving_markers", surviving as u64);
+                if AMOUNT_CHECKED.with(|c| c.get()) {
+                    st.class("bundle_amount_compared_with_line_count");
+                    if case.files.iter().skip(1).any(|(_, t)| !t.ends_with('\n')) {
+                        st.class("bundle_amount_compared:module_without_final_line_break");
+                    }
+                }
                 CaseResult::Pass { nontrivial: (files_with_markers >= 2 && surviving >= 3).then(|| hash_str(&case.to_json().to_string())) }
             }
             Err(m) => CaseResult::Fail(Failure::new(m, case.to_json())),
@@ -516,8 +522,14 @@ impl BundleCase {
 /// later modules spliced in at top level, and (modules) a final `return` of exactly one value
 static AVOID_COMPOUND_TARGET: std::sync::atomic::AtomicBool = std::sync::atomic::AtomicBool::new(false);
 
-fn gen_bundle_file(t: &mut Tape, index: usize, modules: usize) -> String {
-    let (mut block, luau) = match t.weighted(&[3, 4, 3]) {
+thread_local! {
+    /// whether the last check_bundle compared the amounts with the independent count
+    static AMOUNT_CHECKED: std::cell::Cell<bool> = std::cell::Cell::new(false);
+}
+
+fn gen_bundle_file(t: &mut Tape, index: usize, modules: usize, plain: bool) -> String {
+    // `plain`: Lua 5.1 trees only, so that the whole project is free of type declarations
+    let (mut block, luau) = match if plain { 0 } else { t.weighted(&[3, 4, 3]) } {
         0 => (gen_tree(t, &SynOpts::lua51()).0, false),
         1 => (gen_tree(t, &SynOpts::luau()).0, true),
         _ => (gen_program(t, &GenOpts::luau()).block, true),
@@ -590,17 +602,19 @@ fn gen_bundle_file(t: &mut Tape, index: usize, modules: usize) -> String {
             out.push_str(&head);
         }
         let line = out.matches('\n').count() + 1;
-        out.push_str(&format!("return {{\"@{}L{}\"}}\n", index, line));
+        // a module file may end without a line break
+        out.push_str(&format!("return {{\"@{}L{}\"}}{}", index, line, if t.bool(170) { "\n" } else { "" }));
     }
     out
 }
 
 fn gen_bundle_case(t: &mut Tape) -> BundleCase {
     let modules = 1 + t.choose(3);
+    let plain = t.bool(90);
     let mut files = vec![];
     for i in 0..=modules {
         let path = if i == 0 { "src/main.lua".to_string() } else { format!("src/m{}.lua", i) };
-        files.push((path, gen_bundle_file(t, i, modules)));
+        files.push((path, gen_bundle_file(t, i, modules, plain)));
     }
     let config = loop {
         let (c, shift) = gen_config(t);
@@ -627,6 +641,11 @@ fn tagged_markers_of(text: &str) -> Result<Vec<(usize, u32, u32)>, String> {
         }
     }
     Ok(out)
+}
+
+/// the word `type` followed by white space or a comment: generous test for a type declaration
+fn may_declare_type(text: &str) -> bool {
+    text.match_indices("type").any(|(i, _)| text[i + 4..].starts_with(|c: char| c.is_whitespace() || c == '-'))
 }
 
 /// Ok(Some((files with surviving markers, surviving markers)))
@@ -681,6 +700,50 @@ fn check_bundle(case: &BundleCase) -> Result<Option<(usize, usize)>, String> {
             return Err(msg);
         }
     }
+    // the amount itself, where nothing is hoisted (no type declaration in any file): the files are laid
+    // out one after the other, each taking the lines it has (line breaks + 1), so the code of a file
+    // moves by the lines of the files placed before it. (With hoisted type declarations the count
+    // is as intricate as the code under test and is not attempted.) A module always keeps the
+    // marker of its `return`, so a file without markers in the bundle is not part of it.
+    let mut amount_checked = false;
+    if case.files.iter().all(|(_, t)| !may_declare_type(t)) {
+        let mut per_file: Vec<(i64, usize)> = vec![];
+        for (fi, per_marker) in &deltas {
+            let mut c: Vec<i64> = per_marker.values().next().cloned().unwrap_or_default();
+            for ds in per_marker.values() {
+                c.retain(|d| ds.contains(d));
+            }
+            c.sort();
+            c.dedup();
+            if c.len() == 1 {
+                per_file.push((c[0], *fi));
+            }
+        }
+        if per_file.len() == deltas.len() {
+            per_file.sort();
+            amount_checked = true;
+            let mut before = 0i64;
+            for (d, fi) in &per_file {
+                if *d != before {
+                    let mut msg = format!(
+                        "in the bundle, the code of {} moves by {} line(s) but the files placed before it take {} line(s) (order and amounts: {:?})\n--- config\n{}",
+                        case.files[*fi].0,
+                        d,
+                        before,
+                        per_file.iter().map(|(d, fi)| format!("{} +{}", case.files[*fi].0, d)).collect::<Vec<_>>(),
+                        case.config
+                    );
+                    for (p, text) in &case.files {
+                        msg.push_str(&format!("\n--- {}\n{}", p, text));
+                    }
+                    msg.push_str(&format!("\n--- bundle\n{}", out));
+                    return Err(msg);
+                }
+                before += case.files[*fi].1.matches('\n').count() as i64 + 1;
+            }
+        }
+    }
+    AMOUNT_CHECKED.with(|c| c.set(amount_checked));
     Ok(Some((deltas.len(), markers.len())))
 }
 
